@@ -52,17 +52,20 @@ const S_BLOB: u64 = 10;
 const S_V4_VB: u64 = 12; // v4 without Sapling spends/outputs but a non-zero valueBalanceSapling (C03-F1)
 const S_AMOUNT_OK: u64 = 11; // an amount field overwritten with another in-range value
 
-/// Bytes as `(hb "…"%hx)`, long strings split into chunks (Coq reads very long literals badly).
+/// Bytes as `(wb len [w; ..]%uint63)`: 7 bytes per primitive integer, big-endian, last word
+/// right-aligned; split into chunks joined by `++` (Coq reads very long list literals badly).
 fn hn(b: &[u8]) -> String {
     if b.is_empty() {
         return "[]".into();
     }
-    let parts: Vec<String> = b.chunks(4000).map(|c| format!("hb \"{}\"%hx", hex(c))).collect();
-    if parts.len() == 1 {
-        format!("({})", parts[0])
-    } else {
-        format!("({})", parts.join(" ++ "))
-    }
+    let parts: Vec<String> = b
+        .chunks(9800)
+        .map(|c| {
+            let ws: Vec<String> = c.chunks(7).map(|w| w.iter().fold(0u64, |a, x| (a << 8) | *x as u64).to_string()).collect();
+            format!("wb {} [{}]%uint63", c.len(), ws.join(";"))
+        })
+        .collect();
+    format!("({})", parts.join(" ++ "))
 }
 
 fn hex_to_vec(h: &str) -> Vec<u8> {
@@ -487,9 +490,29 @@ fn fingerprint(tx: &Transaction) -> (String, [u8; 32], Vec<u8>) {
 struct TxObs {
     consumed: usize,
     rw: Option<Vec<u8>>,
+    written: Vec<u8>,
     same: bool,
-    hash_ok: bool,
     version: TxVersion,
+}
+
+/// `Read` implementations other than a slice: at most `k` bytes per call (over `a` then `b`,
+/// so that a chain of two slices is the case k = usize::MAX), counting what was handed out.
+struct Pieces<'a> {
+    a: &'a [u8],
+    b: &'a [u8],
+    k: usize,
+    given: usize,
+}
+impl<'a> std::io::Read for Pieces<'a> {
+    fn read(&mut self, buf: &mut [u8]) -> std::io::Result<usize> {
+        // like `Read::chain`: serve the first slice until it is exhausted, then the second
+        let src: &mut &'a [u8] = if !self.a.is_empty() { &mut self.a } else { &mut self.b };
+        let n = buf.len().min(self.k).min(src.len());
+        buf[..n].copy_from_slice(&src[..n]);
+        *src = &src[n..];
+        self.given += n;
+        Ok(n)
+    }
 }
 
 fn observe_tx(b: &[u8], branch: BranchId) -> Option<Result<(TxObs, Transaction), ()>> {
@@ -510,15 +533,59 @@ fn observe_tx(b: &[u8], branch: BranchId) -> Option<Result<(TxObs, Transaction),
                         }
                         Err(_) => false,
                     };
-                let hash_ok = match tx.version() {
-                    TxVersion::V5 | TxVersion::V6 => true,
-                    _ => sha256d(&b[..consumed]) == *tx.txid().as_ref(),
-                };
                 let version = tx.version();
-                Ok((TxObs { consumed, rw, same, hash_ok, version }, tx))
+                Ok((TxObs { consumed, rw, written: w, same, version }, tx))
             }
         }
     })
+}
+
+/// Which other readers to try: (kind, parameter). 1 = at most k bytes per call, 2 = chain of two
+/// slices split at p, 3 = at most k bytes per call with trailing garbage appended.
+fn alt_plan(rng: &mut Rng, len: usize, marks: &[usize], accepted: bool) -> Vec<(u64, usize)> {
+    if !accepted {
+        return vec![(1, 1), (1, 7), (2, len / 2)];
+    }
+    let mut v: Vec<(u64, usize)> = [1usize, 2, 3, 7, 31, 64].iter().map(|k| (1u64, *k)).collect();
+    v.push((3, 3));
+    let mut splits: Vec<usize> = vec![];
+    if marks.len() <= 25 {
+        for m in marks {
+            splits.extend([m.wrapping_sub(1), *m, m + 1]);
+        }
+    } else {
+        for _ in 0..6 {
+            let m = marks[rng.below(marks.len() as u64) as usize];
+            splits.extend([m, m + 1 + rng.below(3) as usize]);
+        }
+    }
+    splits.retain(|p| *p > 0 && *p < len);
+    splits.sort();
+    splits.dedup();
+    v.extend(splits.into_iter().map(|p| (2u64, p)));
+    v
+}
+
+fn run_alt<T>(kind: u64, param: usize, b: &[u8], consumed: usize, garbage: &[u8], parse: impl Fn(&mut Pieces) -> Result<T, ()>, cmp: impl Fn(&T) -> (bool, Option<Vec<u8>>)) -> String {
+    let mut g = b[..consumed.min(b.len())].to_vec();
+    g.extend_from_slice(garbage);
+    let r = catch(|| {
+        let mut rd = match kind {
+            1 => Pieces { a: b, b: &[], k: param, given: 0 },
+            2 => Pieces { a: &b[..param], b: &b[param..], k: usize::MAX, given: 0 },
+            _ => Pieces { a: &g, b: &[], k: param, given: 0 },
+        };
+        parse(&mut rd).map(|t| (rd.given, t))
+    });
+    let res = match r {
+        None => "AltPanic".to_string(),
+        Some(Err(())) => "AltErr".to_string(),
+        Some(Ok((given, t))) => {
+            let (ser_same, id) = cmp(&t);
+            format!("(AltOk {} {} {})", given, boolc(ser_same), opt(id.map(|x| hn(&x))))
+        }
+    };
+    format!("({}, {}, {})", kind, param, res)
 }
 
 struct Stats {
@@ -528,6 +595,8 @@ struct Stats {
     size_hist: BTreeMap<u64, u64>,
     bad_tables: u64,
     rust_only: u64,
+    alt_reads: u64,
+    max_case_bytes: usize,
 }
 
 fn vname(v: TxVersion) -> String {
@@ -540,58 +609,86 @@ fn vname(v: TxVersion) -> String {
     }
 }
 
-fn emit_tx(st: &mut Stats, src: u64, b: &[u8], branch: BranchId, gen: Option<&(String, [u8; 32], Vec<u8>)>) {
+fn emit_tx(st: &mut Stats, rng: &mut Rng, src: u64, b: &[u8], branch: BranchId, gen: Option<&(String, [u8; 32], Vec<u8>)>) {
     let o = observe_tx(b, branch);
     let bad = bad_blobs(b);
     if !bad.is_empty() {
         st.bad_tables += 1;
     }
-    let out = match &o {
+    let marks: Vec<usize> = {
+        let mut w = Walk::new(b);
+        w.tx();
+        w.marks.iter().map(|(p, _)| *p).collect()
+    };
+    let garbage = rng.bytes(5);
+    let parse = |rd: &mut Pieces| Transaction::read(rd, branch).map_err(|_| ());
+    let (out, alts) = match &o {
         None => {
             *st.by_outcome.entry("panic".into()).or_default() += 1;
-            PANIC.to_string()
+            (PANIC.to_string(), vec![])
         }
         Some(Err(())) => {
             *st.by_outcome.entry("reject".into()).or_default() += 1;
-            err("tt")
+            let alts: Vec<String> = alt_plan(rng, b.len(), &marks, false)
+                .into_iter()
+                .filter(|(k, p)| *k != 2 || (*p > 0 && *p < b.len()))
+                .map(|(k, p)| run_alt(k, p, b, b.len(), &garbage, &parse, |_t: &Transaction| (false, None)))
+                .collect();
+            (err("tt"), alts)
         }
         Some(Ok((ob, tx))) => {
             *st.by_outcome.entry("accept".into()).or_default() += 1;
             *st.by_version.entry(vname(ob.version)).or_default() += 1;
+            let main_fp = fingerprint(tx);
             let gen_same = match gen {
                 None => true,
                 Some(g) => {
-                    let f = fingerprint(tx);
-                    if *g != f && std::env::var("C03_DEBUG").is_ok() {
+                    let f = &main_fp;
+                    if g != f && std::env::var("C03_DEBUG").is_ok() {
                         let i = g.0.bytes().zip(f.0.bytes()).position(|(a, b)| a != b).unwrap_or(0);
                         eprintln!("gen!=parsed dbg_eq={} txid_eq={} auth_eq={} at {}:\n  gen: {}\n  got: {}", g.0 == f.0, g.1 == f.1, g.2 == f.2, i,
                             &g.0[i.saturating_sub(80)..(i + 80).min(g.0.len())], &f.0[i.saturating_sub(80)..(i + 80).min(f.0.len())]);
                     }
-                    *g == f
+                    g == f
                 }
             };
-            ok(format!(
-                "(TxOk {} {} {} {} {})",
-                ob.consumed,
-                opt(ob.rw.as_ref().map(|w| hn(w))),
-                boolc(ob.same),
-                boolc(ob.hash_ok),
-                boolc(gen_same)
-            ))
+            let cmp = |t: &Transaction| {
+                let f = fingerprint(t);
+                let mut w = vec![];
+                let ser_same = t.write(&mut w).is_ok() && w == ob.written && f.0 == main_fp.0 && f.2 == main_fp.2;
+                (ser_same, if f.1 == main_fp.1 { None } else { Some(f.1.to_vec()) })
+            };
+            let alts: Vec<String> = alt_plan(rng, b.len(), &marks, true).into_iter().map(|(k, p)| run_alt(k, p, b, ob.consumed, &garbage, &parse, &cmp)).collect();
+            (
+                ok(format!(
+                    "(TxOk {} {} {} {} {} {})",
+                    ob.consumed,
+                    opt(ob.rw.as_ref().map(|w| hn(w))),
+                    hn(tx.txid().as_ref()),
+                    u32::from(tx.consensus_branch_id()),
+                    boolc(ob.same),
+                    boolc(gen_same)
+                )),
+                alts,
+            )
         }
     };
+    st.alt_reads += alts.len() as u64;
+    st.max_case_bytes = st.max_case_bytes.max(b.len());
     *st.by_src.entry(src).or_default() += 1;
     *st.size_hist.entry((b.len() as u64 + 1).next_power_of_two()).or_default() += 1;
     case(format!(
-        "Tx {} {} {} {}",
+        "Tx {} {} {} {} {} {}",
         src,
+        u32::from(branch),
         hn(b),
         list(bad.iter().map(|(k, x)| pair(format!("{}", k), hn(x)))),
-        out
+        out,
+        list(alts)
     ));
 }
 
-fn emit_hdr(st: &mut Stats, src: u64, b: &[u8]) {
+fn emit_hdr(st: &mut Stats, rng: &mut Rng, src: u64, b: &[u8]) {
     let o = catch(|| {
         let mut cur = Cursor::new(b);
         match BlockHeader::read(&mut cur) {
@@ -606,27 +703,41 @@ fn emit_hdr(st: &mut Stats, src: u64, b: &[u8]) {
                         Ok(h2) => format!("{:?}", h2) == format!("{:?}", h) && h2.hash() == h.hash(),
                         Err(_) => false,
                     };
-                let hash_ok = h.hash().0 == sha256d(&b[..consumed]);
-                Ok((consumed, rw, same, hash_ok))
+                Ok((consumed, rw, same, h, w))
             }
         }
     });
-    let out = match o {
+    let garbage = rng.bytes(5);
+    let marks: Vec<usize> = [4usize, 36, 68, 100, 104, 108, 140, 141, 143].iter().cloned().filter(|p| *p < b.len()).collect();
+    let parse = |rd: &mut Pieces| BlockHeader::read(rd).map_err(|_| ());
+    let (out, alts) = match &o {
         None => {
             *st.by_outcome.entry("hdr-panic".into()).or_default() += 1;
-            PANIC.to_string()
+            (PANIC.to_string(), vec![])
         }
         Some(Err(())) => {
             *st.by_outcome.entry("hdr-reject".into()).or_default() += 1;
-            err("tt")
+            let alts: Vec<String> = alt_plan(rng, b.len(), &marks, false)
+                .into_iter()
+                .filter(|(k, p)| *k != 2 || (*p > 0 && *p < b.len()))
+                .map(|(k, p)| run_alt(k, p, b, b.len(), &garbage, &parse, |_h: &BlockHeader| (false, None)))
+                .collect();
+            (err("tt"), alts)
         }
-        Some(Ok((c, rw, same, hash_ok))) => {
+        Some(Ok((c, rw, same, h, written))) => {
             *st.by_outcome.entry("hdr-accept".into()).or_default() += 1;
-            ok(format!("(HdrOk {} {} {} {})", c, opt(rw.as_ref().map(|w| hn(w))), boolc(same), boolc(hash_ok)))
+            let cmp = |t: &BlockHeader| {
+                let mut w = vec![];
+                let ser_same = t.write(&mut w).is_ok() && w == *written && format!("{:?}", t) == format!("{:?}", h);
+                (ser_same, if t.hash() == h.hash() { None } else { Some(t.hash().0.to_vec()) })
+            };
+            let alts: Vec<String> = alt_plan(rng, b.len(), &marks, true).into_iter().map(|(k, p)| run_alt(k, p, b, *c, &garbage, &parse, &cmp)).collect();
+            (ok(format!("(HdrOk {} {} {} {})", c, opt(rw.as_ref().map(|w| hn(w))), hn(&h.hash().0), boolc(*same))), alts)
         }
     };
+    st.alt_reads += alts.len() as u64;
     *st.by_src.entry(100 + src).or_default() += 1;
-    case(format!("Hdr {} {} {}", src, hn(b), out));
+    case(format!("Hdr {} {} {} {}", src, hn(b), out, list(alts)));
 }
 
 // ---- CompactSize of the in-tree crate (0.5.0), bounded and unbounded ---------------------------
@@ -913,11 +1024,11 @@ fn mutate(st: &mut Stats, rng: &mut Rng, b: &[u8], branch: BranchId, budget: usi
         w.tx();
         w.marks
     };
-    let mut emit = |st: &mut Stats, src: u64, x: &[u8]| {
+    let emit = |st: &mut Stats, rng: &mut Rng, src: u64, x: &[u8]| {
         if is_hdr {
-            emit_hdr(st, src, x)
+            emit_hdr(st, rng, src, x)
         } else {
-            emit_tx(st, src, x, branch, None)
+            emit_tx(st, rng, src, x, branch, None)
         }
     };
     let splice = |p: usize, n: usize, with: &[u8]| -> Vec<u8> {
@@ -937,13 +1048,13 @@ fn mutate(st: &mut Stats, rng: &mut Rng, b: &[u8], branch: BranchId, budget: usi
                     rng.below(b.len() as u64) as usize
                 };
                 let p = if rng.chance(1, 6) { b.len() - 1 - rng.below(3.min(b.len() as u64 - 1)) as usize } else { p };
-                emit(st, S_TRUNC, &b[..p.min(b.len() - 1)]);
+                emit(st, rng, S_TRUNC, &b[..p.min(b.len() - 1)]);
             }
             5 | 6 => {
                 let mut v = b.to_vec();
                 let extra = rng.range(1, 9) as usize;
                 v.extend(rng.bytes(extra));
-                emit(st, S_EXT, &v);
+                emit(st, rng, S_EXT, &v);
             }
             7..=10 => {
                 // single-byte mutation, biased to the first byte of a field
@@ -962,7 +1073,7 @@ fn mutate(st: &mut Stats, rng: &mut Rng, b: &[u8], branch: BranchId, budget: usi
                 if v[p] == b[p] {
                     v[p] ^= 0x80;
                 }
-                emit(st, S_FLIP, &v);
+                emit(st, rng, S_FLIP, &v);
             }
             11 | 12 => {
                 // blob corruption: high bits / all-ones / zero / small-order encodings
@@ -986,7 +1097,7 @@ fn mutate(st: &mut Stats, rng: &mut Rng, b: &[u8], branch: BranchId, budget: usi
                     }
                     _ => rng.bytes(32),
                 };
-                emit(st, S_BLOB, &splice(p, 32, &with));
+                emit(st, rng, S_BLOB, &splice(p, 32, &with));
             }
             13 | 14 => {
                 let counts: Vec<usize> = marks.iter().filter(|(_, k)| *k == MK::Count).map(|(p, _)| *p).collect();
@@ -1004,7 +1115,7 @@ fn mutate(st: &mut Stats, rng: &mut Rng, b: &[u8], branch: BranchId, budget: usi
                 if n == cur {
                     continue;
                 }
-                emit(st, S_COUNT, &splice(p, w, &cs_bytes(n)));
+                emit(st, rng, S_COUNT, &splice(p, w, &cs_bytes(n)));
             }
             15 | 16 => {
                 let counts: Vec<usize> = marks.iter().filter(|(_, k)| *k == MK::Count).map(|(p, _)| *p).collect();
@@ -1026,7 +1137,7 @@ fn mutate(st: &mut Stats, rng: &mut Rng, b: &[u8], branch: BranchId, budget: usi
                     _ => continue,
                 };
                 let form = rng.range(min_form, 2) as u8;
-                emit(st, S_NONCANON, &splice(p, w, &noncanon(cur, form)));
+                emit(st, rng, S_NONCANON, &splice(p, w, &noncanon(cur, form)));
             }
             17 | 18 => {
                 let amts: Vec<(usize, MK)> = marks.iter().filter(|(_, k)| matches!(k, MK::AmtU | MK::AmtS)).cloned().collect();
@@ -1037,7 +1148,7 @@ fn mutate(st: &mut Stats, rng: &mut Rng, b: &[u8], branch: BranchId, budget: usi
                 let m = MAX_MONEY as i64;
                 let v: i64 = *rng.pick(&[m + 1, -m - 1, i64::MIN, i64::MAX, -1, -m, m, 0, 1 << 62, m + 2, -m + 1]);
                 let in_range = if k == MK::AmtU { (0..=m).contains(&v) } else { (-m..=m).contains(&v) };
-                emit(st, if in_range { S_AMOUNT_OK } else { S_AMOUNT }, &splice(p, 8, &v.to_le_bytes()));
+                emit(st, rng, if in_range { S_AMOUNT_OK } else { S_AMOUNT }, &splice(p, 8, &v.to_le_bytes()));
             }
             _ => {
                 let hs: Vec<(usize, MK)> = marks.iter().filter(|(_, k)| matches!(k, MK::Hdr | MK::Branch | MK::Flags)).cloned().collect();
@@ -1060,7 +1171,7 @@ fn mutate(st: &mut Stats, rng: &mut Rng, b: &[u8], branch: BranchId, budget: usi
                         .to_vec(),
                 };
                 let n = with.len();
-                emit(st, S_HDRFIELD, &splice(p, n, &with));
+                emit(st, rng, S_HDRFIELD, &splice(p, n, &with));
             }
         }
     }
@@ -1083,13 +1194,28 @@ fn main() {
     let a = args();
     let mut rng = Rng::new(a.seed, 3);
     let mut r = runner(&mut rng);
-    let mut st = Stats { by_src: BTreeMap::new(), by_outcome: BTreeMap::new(), by_version: BTreeMap::new(), size_hist: BTreeMap::new(), bad_tables: 0, rust_only: 0 };
+    let mut st = Stats { by_src: BTreeMap::new(), by_outcome: BTreeMap::new(), by_version: BTreeMap::new(), size_hist: BTreeMap::new(), bad_tables: 0, rust_only: 0, alt_reads: 0, max_case_bytes: 0 };
     let per_branch = a.budget(4, 12);
     let mut_budget = a.budget(22, 36);
     let std_scripts = [0usize, 1, 25, 35, 107];
 
     // (1) own compositions for every branch x admissible version
+    // the crate's own strategy arb_tx (up to 30 spends / 30 outputs / 100 actions per bundle) is
+    // sampled n_arb times per branch and interleaved with the small compositions
+    let n_arb = a.budget(2, 4);
+    let arb_cap = a.budget(400_000, 2_000_000);
     for &branch in BRANCHES.iter() {
+        for _ in 0..n_arb {
+            let tx = sample(&mut r, zcash_primitives::transaction::testing::arb_tx(branch));
+            // arb_tx gives v5 spends individual anchors although the format carries one; such a
+            // value is not a well-formed v5 transaction, so it is not compared with its parse
+            let b = ser(&tx);
+            if b.len() <= arb_cap {
+                emit_tx(&mut st, &mut rng, S_GEN, &b, branch, None);
+            } else {
+                st.rust_only += 1;
+            }
+        }
         for v in versions_for(branch, &mut rng) {
             for i in 0..per_branch {
                 let sh = Shape {
@@ -1107,30 +1233,9 @@ fn main() {
                     let b = ser(&tx);
                     let fp = fingerprint(&tx);
                     // the branch handed to the reader is irrelevant for v5+, stored for v1-v4
-                    emit_tx(&mut st, S_GEN, &b, branch, Some(&fp));
+                    emit_tx(&mut st, &mut rng, S_GEN, &b, branch, Some(&fp));
                     let div = if b.len() > 6000 { 8 } else if b.len() > 2500 { 3 } else { 1 };
                     mutate(&mut st, &mut rng, &b, branch, mut_budget / div, false);
-                }
-            }
-        }
-    }
-
-    // (2) the crate's own strategy (arb_tx): large bundles. Small ones are printed, the large
-    // ones are checked here only (property on the implementation) and printed when they fail.
-    let n_arb = a.budget(2, 6);
-    for &branch in BRANCHES.iter() {
-        for _ in 0..n_arb {
-            let tx = sample(&mut r, zcash_primitives::transaction::testing::arb_tx(branch));
-            // arb_tx gives v5 spends individual anchors although the format carries one; such a
-            // value is not a well-formed v5 transaction, compare only the serialisation then
-            let b = ser(&tx);
-            if b.len() <= a.budget(9000, 16000) {
-                emit_tx(&mut st, S_GEN, &b, branch, None);
-            } else {
-                st.rust_only += 1;
-                let good = matches!(observe_tx(&b, branch), Some(Ok((ref o, _))) if o.consumed == b.len() && o.rw.is_none() && o.same && o.hash_ok);
-                if !good {
-                    emit_tx(&mut st, S_GEN, &b, branch, None);
                 }
             }
         }
@@ -1151,13 +1256,13 @@ fn main() {
             let sh = Shape { nin: 0, nout: 0, ks: 0, ko: 0, sap: false, njs: 0, norch: 0, niron: 0, short_proof: true };
             let tx = build_tx(&mut rng, &mut r, br, v, &sh, &std_scripts).unwrap();
             let b = ser(&tx);
-            emit_tx(&mut st, S_EDGE, &b, br, Some(&fingerprint(&tx)));
+            emit_tx(&mut st, &mut rng, S_EDGE, &b, br, Some(&fingerprint(&tx)));
             mutate(&mut st, &mut rng, &b, br, mut_budget, false);
         }
         // C03-F1 regression: v4, no Sapling spends/outputs, valueBalanceSapling != 0 must be rejected
         {
             let w = hex_to_vec("0400008085202f89000200912acf997f010000000000000000000001c442b1ba47010000000040075af0750700000000");
-            emit_tx(&mut st, S_V4_VB, &w, BranchId::Canopy, None);
+            emit_tx(&mut st, &mut rng, S_V4_VB, &w, BranchId::Canopy, None);
             for nout in 0..3usize {
                 let sh = Shape { nin: nout % 2, nout, ks: 0, ko: 0, sap: false, njs: nout % 2, norch: 0, niron: 0, short_proof: true };
                 let tx = build_tx(&mut rng, &mut r, BranchId::Canopy, TxVersion::V4, &sh, &std_scripts).unwrap();
@@ -1168,7 +1273,7 @@ fn main() {
                 for v in [1i64, -1, MAX_MONEY as i64, -(MAX_MONEY as i64), 0x0100] {
                     let mut x = b.clone();
                     x[p..p + 8].copy_from_slice(&v.to_le_bytes());
-                    emit_tx(&mut st, S_V4_VB, &x, BranchId::Canopy, None);
+                    emit_tx(&mut st, &mut rng, S_V4_VB, &x, BranchId::Canopy, None);
                 }
             }
         }
@@ -1181,7 +1286,7 @@ fn main() {
             let sh = Shape { nin: 1, nout: 1, ks: 0, ko: 0, sap: false, njs: 0, norch: 0, niron: 0, short_proof: true };
             let tx = build_tx(&mut rng, &mut r, branch, TxVersion::V5, &sh, &[l]).unwrap();
             let b = ser(&tx);
-            emit_tx(&mut st, S_EDGE, &b, branch, Some(&fingerprint(&tx)));
+            emit_tx(&mut st, &mut rng, S_EDGE, &b, branch, Some(&fingerprint(&tx)));
             mutate(&mut st, &mut rng, &b, branch, 8, false);
         }
         let mut counts = vec![(252usize, 0usize), (253, 0), (0, 252), (0, 253), (0, 254)];
@@ -1192,7 +1297,7 @@ fn main() {
             let sh = Shape { nin, nout, ks: 0, ko: 0, sap: false, njs: 0, norch: 0, niron: 0, short_proof: true };
             let tx = build_tx(&mut rng, &mut r, BranchId::Canopy, TxVersion::V4, &sh, &[0]).unwrap();
             let b = ser(&tx);
-            emit_tx(&mut st, S_EDGE, &b, BranchId::Canopy, Some(&fingerprint(&tx)));
+            emit_tx(&mut st, &mut rng, S_EDGE, &b, BranchId::Canopy, Some(&fingerprint(&tx)));
             mutate(&mut st, &mut rng, &b, BranchId::Canopy, 6, false);
         }
         // Sapling shapes: spends only / outputs only / both, v4 and v5; Orchard with canonical
@@ -1202,7 +1307,7 @@ fn main() {
                 let sh = Shape { nin: 0, nout: 0, ks, ko, sap: true, njs: 0, norch: 0, niron: 0, short_proof: false };
                 if let Some(tx) = build_tx(&mut rng, &mut r, br, v, &sh, &std_scripts) {
                     let b = ser(&tx);
-                    emit_tx(&mut st, S_EDGE, &b, br, Some(&fingerprint(&tx)));
+                    emit_tx(&mut st, &mut rng, S_EDGE, &b, br, Some(&fingerprint(&tx)));
                     mutate(&mut st, &mut rng, &b, br, mut_budget, false);
                 }
             }
@@ -1219,7 +1324,7 @@ fn main() {
                 let sh = Shape { nin: 0, nout: 1, ks: 0, ko: 0, sap: false, njs: 0, norch: no, niron: ni, short_proof: false };
                 if let Some(tx) = build_tx(&mut rng, &mut r, br, v, &sh, &std_scripts) {
                     let b = ser(&tx);
-                    emit_tx(&mut st, S_EDGE, &b, br, Some(&fingerprint(&tx)));
+                    emit_tx(&mut st, &mut rng, S_EDGE, &b, br, Some(&fingerprint(&tx)));
                     mutate(&mut st, &mut rng, &b, br, mut_budget / 5, false);
                 }
             }
@@ -1243,7 +1348,7 @@ fn main() {
                 b[8..12].copy_from_slice(&u32::from(br).to_le_bytes());
             }
         }
-        emit_tx(&mut st, S_RANDOM, &b, BranchId::Nu5, None);
+        emit_tx(&mut st, &mut rng, S_RANDOM, &b, BranchId::Nu5, None);
     }
 
     // (5) block headers
@@ -1254,7 +1359,7 @@ fn main() {
     for &l in &sols {
         for _ in 0..a.budget(2, 5) {
             let b = header_bytes(&mut rng, l);
-            emit_hdr(&mut st, S_GEN, &b);
+            emit_hdr(&mut st, &mut rng, S_GEN, &b);
             mutate(&mut st, &mut rng, &b, BranchId::Nu5, a.budget(14, 30), true);
         }
     }
@@ -1305,12 +1410,14 @@ fn main() {
     }
 
     stat(format!(
-        "{{\"by_src\":{:?},\"by_outcome\":{:?},\"accepted_by_version\":{:?},\"size_hist_pow2\":{:?},\"cases_with_invalid_blobs\":{},\"large_arb_tx_checked_in_rust_only\":{}}}",
+        "{{\"by_src\":{:?},\"by_outcome\":{:?},\"accepted_by_version\":{:?},\"size_hist_pow2\":{:?},\"cases_with_invalid_blobs\":{},\"arb_tx_over_size_cap_skipped\":{},\"alternative_reader_parses\":{},\"largest_input_bytes\":{}}}",
         st.by_src.iter().map(|(k, v)| (k.to_string(), *v)).collect::<BTreeMap<_, _>>(),
         st.by_outcome,
         st.by_version,
         st.size_hist.iter().map(|(k, v)| (k.to_string(), *v)).collect::<BTreeMap<_, _>>(),
         st.bad_tables,
-        st.rust_only
+        st.rust_only,
+        st.alt_reads,
+        st.max_case_bytes
     ));
 }
